@@ -284,6 +284,8 @@ def expected_after_roundtrip(t, v):
         return ([s for s, _, _, _ in v], [l for _, _, l, _ in v], [c for _, _, _, c in v])
     if k == "DATE_AND_TIME":
         return tuple(v)
+    if k == "structtag":
+        return R.dec(t, R.enc(t, v), 0)[0]   # the reference codec's view: arrays cut to their length, REALs rounded, strings cut to capacity
     return v
 
 
